@@ -75,6 +75,11 @@ func (s *session) timedRequest(r *rig.Rig, c, id, ev string, np int) (hung bool)
 	t0 := time.Now()
 	go func() {
 		ctx := context.Background()
+		if s.callerDeadline {
+			var cancel context.CancelFunc
+			ctx, cancel = context.WithTimeout(ctx, 60*time.Second)
+			defer cancel()
+		}
 		var (
 			err  error
 			tags = []string{}
@@ -118,7 +123,8 @@ func (s *session) timedRequest(r *rig.Rig, c, id, ev string, np int) (hung bool)
 			et = x.err.Error()
 		}
 		s.ev("ret", "c", c, "req", id, "event", ev, "err", x.err != nil, "errtext", et,
-			"veto", x.err != nil && strings.Contains(et, errVeto.Error()), "tags", x.tags, "ms", int(ms), "hung", false)
+			"veto", x.err != nil && (strings.Contains(et, errVeto.Error()) || (s.vetoText != "" && strings.Contains(et, s.vetoText))),
+			"tags", x.tags, "ms", int(ms), "hung", false)
 	case <-time.After(watchdog):
 		s.ev("ret", "c", c, "req", id, "event", ev, "err", true, "errtext", "watchdog: request did not return",
 			"veto", false, "tags", []string{}, "ms", int(watchdog.Milliseconds()), "hung", true)
@@ -176,6 +182,10 @@ func (s *session) faultRun(r *rig.Rig, w *rec.Writer, sc FaultScenario) error {
 		case "handler-error":
 			s.ev("reply", "p", peerName, "req", id, "veto", true)
 			return fmt.Errorf("%w (%s/%s)", errVeto, peerName, id)
+		case "handler-error-deadline":
+			// a deliberate handler error that happens to be a deadline error of the plugin's own (it answers at once)
+			s.ev("reply", "p", peerName, "req", id, "veto", true)
+			return context.DeadlineExceeded
 		case "close-after":
 			go func() {
 				time.Sleep(300 * time.Microsecond)
@@ -273,9 +283,15 @@ func (s *session) faultRun(r *rig.Rig, w *rec.Writer, sc FaultScenario) error {
 		}
 	}
 	// place the faults that precede the request
-	if sc.Fault != "none" && sc.Fault != "handler-error" {
+	if sc.Fault != "none" && sc.Fault != "handler-error" && sc.Fault != "handler-error-deadline" {
 		s.ev("leaving", "p", peerName) // from here on the peer is a plugin that fails
 	}
+	s.vetoText = ""
+	if sc.Fault == "handler-error-deadline" {
+		s.vetoText = "context deadline exceeded"
+	}
+	// every other scenario: the runtime's caller brings a (long) deadline of its own, as a CRI server does
+	s.callerDeadline = s.run%2 == 0
 	switch sc.Fault {
 	case "close-before":
 		peer.Cut.Close()
@@ -296,7 +312,7 @@ func (s *session) faultRun(r *rig.Rig, w *rec.Writer, sc FaultScenario) error {
 	// did the fault actually happen (a cut placed beyond the traffic never fires)?
 	fired := false
 	switch sc.Fault {
-	case "none", "handler-error":
+	case "none", "handler-error", "handler-error-deadline":
 	case "hang-ctx":
 		// the handler gives up exactly at the deadline the runtime set: its answer may still make it in time
 	case "cut-request", "cut-response":
